@@ -6,7 +6,7 @@
    hasNeededPermissions, handlePermissions, setupAccess, checkForEncryption: Model.v (hand transcription).
    denies_extract, denies_modify, spec_kind, spec_must_refuse, row_satisfies: Spec.v (ISO 32000-1 Table 22
      bits, revision 2 / revision >= 3 layouts; what each command does). *)
-From Coq Require Import ZArith List Bool.
+From Coq Require Import ZArith NArith List Bool.
 From PV Require Import C26.Generated C26.Spec C26.Model C26.Proofs.
 Import ListNotations.
 Open Scope Z_scope.
@@ -23,10 +23,13 @@ Print Assumptions C26_needs_iff_refused.
 (* The whole access decision for an encrypted document when only a (non-empty) user password matches
    (owner password absent or wrong, /Perms consistent): refused with ErrPermissionDenied exactly in the
    cases above, otherwise the command proceeds ("commands whose rights are granted proceed"), except
-   for commands pdfcpu never runs on encrypted input (ErrEncrypted) or that insist on the owner password. *)
+   for commands pdfcpu never runs on encrypted input (ErrEncrypted) or that insist on the owner password.
+   opw, upw are the RAW password byte strings handed to pdfcpu: the statement holds for EVERY non-empty
+   user password -- blanks, tabs, newlines, NUL bytes, any length -- and every (wrong or empty) owner
+   password; "no credentials supplied" is Generated.noCredentialsSupplied, extracted from the source. *)
 Theorem C26_user_password_access : forall mode e m, In (mode, (e, m)) perm_table ->
-  forall opwEmpty P R,
-  checkForEncryption true false true true opwEmpty false mode P R =
+  forall opw upw P R, upw <> [] ->
+  checkForEncryption true false true true opw upw mode P R =
     if rejectsEncrypted mode then EncryptedUnsupported
     else if needsOwnerAndUserPassword mode then OwnerRequired
     else if (negb (e =? 0) && denies_extract P R) || (negb (m =? 0) && denies_modify P R)
@@ -36,14 +39,14 @@ Print Assumptions C26_user_password_access.
 
 (* A matching owner password is never answered with ErrPermissionDenied — any command mode (any
    integer), any P, R, encrypted or not. *)
-Theorem C26_owner_never_denied : forall encrypted userOK permsOK opwEmpty upwEmpty mode P R,
-  checkForEncryption encrypted true userOK permsOK opwEmpty upwEmpty mode P R <> Denied.
+Theorem C26_owner_never_denied : forall encrypted userOK permsOK opw upw mode P R,
+  checkForEncryption encrypted true userOK permsOK opw upw mode P R <> Denied.
 Proof. exact owner_never_denied. Qed.
 Print Assumptions C26_owner_never_denied.
 
 (* Unencrypted documents are never answered with ErrPermissionDenied. *)
-Theorem C26_unencrypted_never_denied : forall ownerOK userOK permsOK opwEmpty upwEmpty mode P R,
-  checkForEncryption false ownerOK userOK permsOK opwEmpty upwEmpty mode P R <> Denied.
+Theorem C26_unencrypted_never_denied : forall ownerOK userOK permsOK opw upw mode P R,
+  checkForEncryption false ownerOK userOK permsOK opw upw mode P R <> Denied.
 Proof. exact unencrypted_never_denied. Qed.
 Print Assumptions C26_unencrypted_never_denied.
 
@@ -61,8 +64,8 @@ Print Assumptions C26_every_mode_classified_partial.
 (* ... and therefore: for every command mode outside that list, whenever the specification says the
    document denies what the command does, user-password-only access does not proceed. *)
 Theorem C26_spec_refusal_partial : forall m, In m all_modes -> ~ In m known_unclassified ->
-  forall opwEmpty P R, spec_must_refuse (spec_kind m) P R = true ->
-  checkForEncryption true false true true opwEmpty false m P R <> Proceed.
+  forall opw upw P R, upw <> [] -> spec_must_refuse (spec_kind m) P R = true ->
+  checkForEncryption true false true true opw upw m P R <> Proceed.
 Proof. exact spec_refusal_partial. Qed.
 Print Assumptions C26_spec_refusal_partial.
 
@@ -88,5 +91,8 @@ Example C26_nonvacuous :
   /\ userOnlyAccess CM_ROTATE (-3901) 2 = Denied /\ userOnlyAccess CM_ROTATE (-3901 + 8) 2 = Proceed
   /\ userOnlyAccess CM_ROTATE (-3901 + 8) 6 = Denied /\ userOnlyAccess CM_ROTATE (-3901 + 1024) 6 = Proceed
   /\ userOnlyAccess CM_LISTINFO (-3901) 4 = Proceed
+  (* a blank (whitespace-only) user password is a supplied credential; no password at all is not *)
+  /\ checkForEncryption true false true true [] [32%N; 9%N; 10%N] CM_ROTATE (-3901) 4 = Denied
+  /\ checkForEncryption true false true true [] [] CM_ROTATE (-3901) 4 = Proceed
   /\ forallb (fun m => negb (kind_is_row (spec_kind m))) all_modes = true.
 Proof. vm_compute. repeat split; reflexivity. Qed.
